@@ -1,10 +1,10 @@
 #!/venv/bin/python
-"""tools_design_add.py <file with a paragraph>: inserts the paragraph at the end of DESIGN.md section 0.6 (before 0.7)."""
+"""tools_design_add.py <file with a paragraph>: appends the paragraph to the end of DESIGN.md section 0 (currently 0.8, before section 1)."""
 import sys
 para = open(sys.argv[1]).read().strip()
 d = open('/verif/DESIGN.md').read()
-sec07 = "### 0.7 Extensions of the specification"
-assert sec07 in d
-d = d.replace(sec07, para + "\n\n" + sec07, 1)
+mark = "---------------------------------------------------------------------------------------------\n\n## 1. The system"
+assert mark in d
+d = d.replace(mark, para + "\n\n" + mark, 1)
 open('/verif/DESIGN.md', 'w').write(d)
 print('added', len(para))
